@@ -260,6 +260,7 @@ def confirm_fresh(prop_id, path):
 
 # ---- main drive ---------------------------------------------------------------------------
 def drive(prop_id, tier, seed):
+    gc.disable()                 # the parent runs cases too (shrinking, probes)
     P = load_property(prop_id)
     budget = P.BUDGET[tier]
     n_cases = int(budget["cases"] * float(os.environ.get("VERIF_SCALE", "1")))
